@@ -204,13 +204,15 @@ def tlc(module, cfg, workers=None, timeout=900, env=None, simulate=None, depth=N
     return r
 
 
-def validate_trace(module, trace_path, tag=None, timeout=900, stack_mb=256, heap="8g", env=None):
+def validate_trace(module, trace_path, tag=None, timeout=900, stack_mb=256, heap="8g", env=None, _whole=False):
     """Trace validation: TLC walks the ndjson log with the single variable l; the trace spec prints one JSON
     record {"viol": l, "clauses": [...]} per rejected line. Returns (TlcResult, violations, nlines).
     A recorded step on which the relation cannot even be evaluated (TLC stops with an evaluation error at line l: an index
     outside a sequence, a missing field, ...) is outside the domain the specification is stated on: it is reported as a
     rejection of that line (clause RecordOutsideSpecDomain) and validation continues with the remaining lines. This can
     only happen with changed code: on the unchanged tree every recorded step evaluates."""
+    if not _whole and os.path.getsize(trace_path) > CHUNK_BYTES:
+        return _validate_chunked(module, trace_path, tag, timeout, stack_mb, heap, env)
     lines = [line for line in open(trace_path) if line.strip()]
     n = len(lines)
     idx = list(range(1, n + 1))           # original line numbers of the lines still in play
@@ -249,6 +251,68 @@ def validate_trace(module, trace_path, tag=None, timeout=900, stack_mb=256, heap
     if cur != trace_path and os.path.exists(cur):
         os.remove(cur)
     return r, viols, n
+
+
+CHUNK_BYTES = int(os.environ.get("VERIF_CHUNK_MB", "120")) * 1024 * 1024
+
+
+def _validate_chunked(module, trace_path, tag, timeout, stack_mb, heap, env):
+    """A long trace: the recorded steps are judged one by one (the trace specs carry no state from line to line), so the
+    log is cut at line boundaries into pieces that are validated by several TLC processes side by side; line numbers of the
+    rejected records are those of the whole log."""
+    import concurrent.futures
+    parts = []            # (path, first line number - 1)
+    f = None
+    size = 0
+    lineno = 0
+    with open(trace_path) as src:
+        for line in src:
+            if not line.strip():
+                continue
+            if f is None or size > CHUNK_BYTES:
+                if f:
+                    f.close()
+                path = "%s.part%d" % (trace_path, len(parts))
+                parts.append((path, lineno))
+                f = open(path, "w")
+                size = 0
+            f.write(line)
+            size += len(line)
+            lineno += 1
+    if f:
+        f.close()
+    log("trace of %d lines validated in %d pieces" % (lineno, len(parts)))
+    t0 = time.time()
+
+    def one(k):
+        path, off = parts[k]
+        r, viols, n = validate_trace(module, path, tag="%s-p%d" % (tag or module, k), timeout=timeout, stack_mb=stack_mb, heap="6g", env=env, _whole=True)
+        os.remove(path)
+        return k, r, viols, n
+
+    total = TlcResult()
+    total.rc = 0
+    total.distinct = 1
+    allv = []
+    nlines = 0
+    with concurrent.futures.ThreadPoolExecutor(max_workers=5) as ex:
+        for k, r, viols, n in ex.map(one, range(len(parts))):
+            off = parts[k][1]
+            total.distinct += r.distinct - 1
+            total.generated += r.generated
+            total.depth += max(0, r.depth - 1)
+            total.out = r.out
+            for v in viols:
+                allv.append(dict(v, viol=v["viol"] + off))
+            for x in r.records:
+                if isinstance(x, dict) and "drift" in x:
+                    x["drift"] += off
+                if isinstance(x, dict) and "viol" in x:
+                    x["viol"] += off
+                total.records.append(x)
+            nlines += n
+    total.wall = time.time() - t0
+    return total, allv, nlines
 
 
 def tlc_simulate_count(out):
